@@ -2,12 +2,12 @@
 """Store behaviour-preserving refactorings produced by sub-agents under /verif/twins/<id>/ after checking that each
 applies to /repo HEAD and keeps the pinned suite at 217 passed + 2 collection errors."""
 import json, os, shutil, subprocess, sys, glob, re
-SRC = "/tmp/wt2"; OUT = "/verif/twins"; PY = "/venv/bin/python"
+SRC = os.environ.get("TWIN_SRC", "/tmp/wt2"); OUT = "/verif/twins"; PY = "/venv/bin/python"; PREFIX = os.environ.get("TWIN_PREFIX", "")
 def sh(cmd, cwd):
     p = subprocess.run(cmd, cwd=cwd, shell=True, capture_output=True, text=True, timeout=900)
     return p.returncode, p.stdout + p.stderr
 for rdir in sorted(glob.glob(f"{SRC}/R*/out/r*")):
-    tid = f"{rdir.split('/')[3]}-{os.path.basename(rdir)}"
+    tid = f"{PREFIX}{rdir.split(chr(47))[3]}-{os.path.basename(rdir)}"
     dest = os.path.join(OUT, tid)
     if os.path.exists(os.path.join(dest, "meta.json")):
         continue
